@@ -643,6 +643,69 @@ def case_of_case(root):
     return map_tree(root, fn)
 
 
+def map_of_inlined(root):
+    """`'h: { .. break 'h Some(v) .. ; None }.map(|p| e)`, the block being an inlined helper  ->  the same block yielding
+    `Some({ let p = v; e })`: the helper's Option protocol and the caller's `map` cancel, and `e` is seen where `v` is known."""
+    def exits(blk):
+        out = []
+        lab = blk.get("label")
+
+        def go(n, top):
+            if isinstance(n, dict):
+                if n.get("k") == "closure":
+                    return
+                if n.get("k") == "break" and n.get("label") == lab:
+                    out.append(("break", n))
+                for k_, v in n.items():
+                    if k_ != "ty":
+                        go(v, False)
+            elif isinstance(n, list):
+                for x in n:
+                    go(x, False)
+        go({k_: v for k_, v in blk.items() if k_ != "expr"}, True)
+        go(blk.get("expr"), False)
+        return out
+
+    def is_opt(v):
+        v = hir.simp(v) if isinstance(v, dict) else v
+        if not isinstance(v, dict):
+            return None
+        if v.get("k") == "call" and v.get("ctor", "").endswith("Option::Some") and len(v["args"]) == 1:
+            return "Some"
+        if v.get("k") == "def" and (v.get("path") or "").endswith("Option::None"):
+            return "None"
+        return None
+
+    def fn(n):
+        if not (n.get("k") == "call" and (n.get("callee") or "") == "core::option::Option::<T>::map" and len(n.get("args", [])) == 2):
+            return n
+        blk, clo = hir.simp(n["args"][0]), hir.simp(n["args"][1])
+        if not (isinstance(blk, dict) and blk.get("k") == "block" and blk.get("label") and blk.get("inlined") and "expr" in blk):
+            return n
+        if not (isinstance(clo, dict) and clo.get("k") == "closure" and len(clo.get("params", [])) == 1) \
+                or any(x.get("k") == "ret" for x in nodes_outside_closures(clo["body"])):
+            return n
+        ex = exits(blk)
+        if is_opt(blk["expr"]) is None or any("e" not in b_ or is_opt(b_["e"]) is None for _, b_ in ex):
+            return n
+        new = copy.deepcopy(blk)
+
+        def mapped(v):
+            v = hir.simp(v)
+            if is_opt(v) == "None":
+                return dict(v, ty=n.get("ty"))
+            inner = {"k": "block", "stmts": [{"k": "let", "pat": copy.deepcopy(clo["params"][0]), "init": v["args"][0], "ln": v.get("ln"), "inl": blk.get("inlined")}],
+                     "expr": copy.deepcopy(clo["body"]), "ty": clo["body"].get("ty") if isinstance(clo["body"], dict) else None, "ln": v.get("ln")}
+            return dict(v, args=[inner], ty=n.get("ty"))
+        for _, b_ in exits(new):
+            b_["e"] = mapped(b_["e"])
+        new["expr"] = mapped(new["expr"])
+        new["ty"] = n.get("ty")
+        new["norm"] = "map-of-inlined"
+        return new
+    return map_tree(root, fn)
+
+
 def alias(root, params):
     """`let a = b;` with immutable a and b: a is another name for b."""
     modes = {}
@@ -1649,6 +1712,7 @@ def normalise_crate(name, crate):
                 h2 = hoist(h2)
                 h2 = case_of_case(h2)
                 h2 = map_tree(h2, _map_fusion)
+                h2 = map_of_inlined(h2)
                 b["inlined_from"] = sorted({x["inlined"] for x in all_nodes(h2) if x.get("inlined")} |
                                            {x["inl"] for x in all_nodes(h2) if x.get("inl")})
             h = h2
